@@ -55,3 +55,24 @@ package jsonexpr
 //@   ensures r.pos >= old(r.pos) && r.pos <= len(r.input)
 //@   loop 0 modifies nothing
 //@   loop 0 invariant 1 <= i && len(input) <= len(r.input) - r.pos
+
+//@ scope eval.go
+
+// A matched scalar is reported with the text the document gives it: strings decoded, numbers
+// verbatim (no re-formatting), booleans as true / false, null as the empty string.
+//@ func (*extractor).matchLiteral
+//@   trusted
+//@   modifies *
+//@ func (*extractor).walk
+//@   capture str = call(d.Str, 0)
+//@   capture num = call(d.Num, 0)
+//@   capture bl = call(d.Bool, 0)
+//@   capture m0 = call(e.matchLiteral, 0)
+//@   capture m1 = call(e.matchLiteral, 1)
+//@   capture m2 = call(e.matchLiteral, 2)
+//@   capture m3 = call(e.matchLiteral, 3)
+//@   ensures[string-value-decoded] str_called && str_r1 == nil ==> m0_called && m0_a0 == str_r0 && ret0 == nil
+//@   ensures[number-text-verbatim] num_called && num_r1 == nil ==> m1_called && m1_a0 == before(m1_called, string(num_r0)) && ret0 == nil
+//@   ensures[null-is-empty] m2_called ==> m2_a0 == ""
+//@   ensures[boolean-text] bl_called && bl_r1 == nil ==> m3_called && m3_a0 == strconv.FormatBool(bl_r0) && ret0 == nil
+//@   ensures[decoder-errors-surface] (str_called && str_r1 != nil) || (num_called && num_r1 != nil) || (bl_called && bl_r1 != nil) ==> ret0 != nil
